@@ -897,6 +897,24 @@ def stale_enum_default(spec):
     return False
 
 
+def list_mutation_victims(spec):
+    """Exact input class of the known finding allof_parent_list_mutated: {(class, attr)} whose list property OBJECT is shared (through
+    $ref chains, identified by the schema that textually declares it) with another composed schema that merges a list declaration with
+    a different item type into it - merge_properties assigns prop1.inner_property in place."""
+    memo, out = {}, set()
+    models = list(spec["leaves"]) + list(spec["composed"])
+    for x in spec["composed"]:
+        for n, dso in flatten(spec, x, memo)["decls"].items():
+            lists = [(d, o) for d, o in dso if d["k"] == "list"]
+            if len(lists) < 2 or all(d["item"] == lists[0][0]["item"] for d, _ in lists):
+                continue
+            origins = {o for _, o in lists}
+            for k in models:
+                if k != x and any(d["k"] == "list" and o in origins for d, o in flatten(spec, k, memo)["decls"].get(n, [])):
+                    out.add((k, n))
+    return out
+
+
 def three_way(ds):
     """Exact input class of the known finding merge_three_way_order: >= 3 declarations of one property among which a pair the pairwise
     rules reject (integer enum with number; string enum with date / date-time) is bridged by the base type (integer; string)."""
@@ -930,19 +948,12 @@ def judge_doc(run, obs, guard_queries):
     memo = {}
     # ---- member classes must not be changed by being composed
     mutated_leaves = set()
+    victims = list_mutation_victims(spec)
     for pname, o in spec["leaves"].items():
         for i, t in enumerate((t0, t1)):
             if t.get(pname) != tb.get(pname):
                 diff = sorted(n for n in set(t.get(pname) or {}) | set(tb.get(pname) or {}) if (t.get(pname) or {}).get(n) != (tb.get(pname) or {}).get(n))
-                mutated = False
-                for n in diff:
-                    d = o["props"].get(n)
-                    if d and d["k"] == "list":
-                        for cname in spec["composed"]:
-                            f = flatten(spec, cname, memo)
-                            ds = f["decls"].get(n, [])
-                            if any(org == pname for _, org in ds) and any(dd["k"] == "list" and dd["item"] != d["item"] for dd, org in ds if org != pname):
-                                mutated = True
+                mutated = bool(diff) and all((pname, n) in victims for n in diff)
                 what = f"member schema {pname} alone has {tb.get(pname)}, but {t.get(pname)} once a composed schema narrows its list property (prop1.inner_property is assigned in place)"
                 if mutated:
                     mutated_leaves.add(pname)
@@ -986,6 +997,9 @@ def judge_doc(run, obs, guard_queries):
         for n in sorted(set(a0) & set(a1) & set(decls)):
             (opt0, base0), (opt1, base1) = split_ann(a0[n][0]), split_ann(a1[n][0])
             # (3) both orders: same type
+            if base0 != base1 and (cname, n) in victims and run.known_finding(
+                    "allof_parent_list_mutated", f"{cname}.{n}: {a0[n][0]} vs {a1[n][0]}: its list property object is shared with another composed schema that narrows it in place"):
+                continue
             if base0 != base1:
                 guard_queries.append({"case": case, "class": cname, "attr": n, "ann": [a0[n][0], a1[n][0]], "decls": f["decls"][n]})
             # (2) required iff any member requires it
@@ -1006,6 +1020,9 @@ def judge_doc(run, obs, guard_queries):
             r_f, r_b = fold_narrow(decls[n]), fold_narrow(decls[n][::-1])
             if r_f[0] == "ok" and r_b[0] == "ok" and ann_of(r_f[1]) and ann_of(r_f[1]) == ann_of(r_b[1]):
                 for i, b in enumerate((base0, base1)):
+                    if b != ann_of(r_f[1]) and (cname, n) in victims and run.known_finding(
+                            "allof_parent_list_mutated", f"{cname}.{n}: {b} instead of {ann_of(r_f[1])}: list property object shared with another composed schema that narrows it in place"):
+                        continue
                     if b != ann_of(r_f[1]):
                         run.violation("oracle", {"replay_input": case, "note": "type of the composed attribute is not the narrowest common type of the declarations", "class": cname, "attr": n,
                                                  "order": i, "annotation": b, "expected": ann_of(r_f[1]), "declarations": [d["k"] for d in decls[n]]})
@@ -1018,7 +1035,7 @@ def judge_doc(run, obs, guard_queries):
                 if "NameError" in r["fatal"] and stale_enum_default(spec) and run.known_finding(
                         "merge_enum_default_stale_class", "models package fails to import: " + r["fatal"].strip().split("\n")[-3].strip() + " -> " + r["fatal"].strip().split("\n")[-1][:80]):
                     continue
-                if "NameError" in r["fatal"] and any(f"/models/{p.lower()}.py" in r["fatal"] for p in mutated_leaves) and run.known_finding(
+                if "NameError" in r["fatal"] and any(f"/models/{p.lower()}.py" in r["fatal"] for p in mutated_leaves | {k for k, _ in victims}) and run.known_finding(
                         "allof_parent_list_mutated", "member class mutated after its imports were computed: " + r["fatal"].strip().split("\n")[-1][:120]):
                     continue
                 run.violation("oracle", {"replay_input": case, "note": "composed class cannot be imported", "class": cname, "error": r["fatal"][-600:]})
